@@ -5,14 +5,16 @@
    [parse_text letter digit t] is syntax.ParseFile on the bytes t (parser.New; Advance;
    ParseFile) for a classification of letters and digits.
    Vocabulary: Spec/SyntaxSpec.v (wf_tree_b, cover_b, interleave, err_in_bounds_b) and
-   Spec/LeafSpec.v (wf_leaves_b: the lexical class of every leaf) -- the executable
+   Spec/LeafSpec.v (wf_leaves_b: the lexical class of every leaf; wf_keywords_b: the keyword
+   that justifies the kind of every node) -- the executable
    statements that every check run evaluates on the Go parser's own output.
    All theorems hold for EVERY byte list t (incl. invalid UTF-8, CR/LF mixes, any length)
    and for EVERY classification letter/digit : Z -> bool (in particular for
    UnicodeTables.is_letter / is_digit, the tables of the Go toolchain).                      *)
 From Coq Require Import String ZArith List Bool.
 From Knut Require Import Model.Bytes Model.Utf8 Model.UnicodeTables Model.Scanner Model.Parser
-  Spec.SyntaxSpec Spec.LeafSpec Proofs.ScannerProofs Proofs.ParserProofs Proofs.LeafProofs.
+  Spec.SyntaxSpec Spec.LeafSpec Proofs.ScannerProofs Proofs.ParserProofs Proofs.RoundTripLeaf
+  Proofs.RoundTripTop Proofs.LeafProofs Proofs.KeywordProofs.
 Import ListNotations.
 Open Scope Z_scope.
 
@@ -72,6 +74,32 @@ Theorem C07_leaves_unicode : forall t f,
 Proof. exact (parse_text_leaves is_letter is_digit). Qed.
 Print Assumptions C07_leaves_unicode.
 
+(* the kind of every node is justified by the text (Spec/LeafSpec.v, bytes): between the date
+   and the payload stand blanks (32, 9, 13), the keyword of the payload's kind -- open, close,
+   price, balance -- and blanks (after `balance` the line may end instead: the multi-line
+   form); a transaction's description follows its date after blanks only; an include is
+   `include`, blanks, the path; a present @performance is `@performance(` ... `)`, a present
+   @accrue is `@accrue`, blanks, the interval.  That the blanks after open/close/price are not
+   empty needs that the newline is not alphanumeric: the hypothesis class_ok (blank, tab, CR,
+   newline, `)` `,` `#` `*` `/` are neither letters nor digits, `i` is one), which holds of
+   the Unicode tables (C08_class_ok_unicode) *)
+Theorem C07_keywords : forall letter digit t f, class_ok letter digit ->
+  parse_text letter digit t = ParseOk f -> wf_keywords_b t f = true.
+Proof. exact parse_text_keywords. Qed.
+Print Assumptions C07_keywords.
+
+Theorem C07_keywords_unicode : forall t f,
+  parse_text is_letter is_digit t = ParseOk f -> wf_keywords_b t f = true.
+Proof. exact (fun t f => parse_text_keywords is_letter is_digit t f unicode_class_ok). Qed.
+Print Assumptions C07_keywords_unicode.
+
+(* for an arbitrary classification the statement is false: if the newline is a letter, the
+   account of `open` may start with it *)
+Theorem C07_keywords_unrestricted_refuted :
+  exists letter digit t f, parse_text letter digit t = ParseOk f /\ wf_keywords_b t f = false.
+Proof. exact keywords_unrestricted_refuted. Qed.
+Print Assumptions C07_keywords_unrestricted_refuted.
+
 (* the three results in one statement *)
 Theorem C07_total : forall letter digit t,
   match parse_text letter digit t with
@@ -81,6 +109,17 @@ Theorem C07_total : forall letter digit t,
   end.
 Proof. exact parse_text_total. Qed.
 Print Assumptions C07_total.
+
+(* everything about a tree the Go parser's tables produce, in one statement *)
+Theorem C07_total_unicode : forall t,
+  match parse_text is_letter is_digit t with
+  | ParseOk f => wf_tree_b t f = true /\ cover_b t f = true /\ interleave t f = t /\
+                 wf_leaves_b is_letter is_digit t f = true /\ wf_keywords_b t f = true
+  | ParseErr e => err_in_bounds_b t e = true
+  | ParseFuel => False
+  end.
+Proof. exact parse_text_total_unicode. Qed.
+Print Assumptions C07_total_unicode.
 
 (* the decoder facts the proofs rest on hold of Go's decoder as modelled in Model/Utf8.v *)
 Theorem C07_decoder : decoder_ok Utf8M.decode.
@@ -154,6 +193,30 @@ Example C07_spec_rejects_short_day :
   let f := mkFile (mkRange 0 17)
      [mkDirective (mkRange 0 16) (BOpen (mkOpen (mkRange 0 16) (mkRange 0 9) (mkAccount (mkRange 15 16) false)))] in
   wf_tree_b t f = true /\ cover_b t f = true /\ wf_leaves_b is_letter is_digit t f = false.
+Proof. vm_compute. repeat split. Qed.
+
+(* the keywords of the example are where the kinds say *)
+Example C07_example_keywords :
+  exists f, parse_text is_letter is_digit ex_text = ParseOk f /\ wf_keywords_b ex_text f = true.
+Proof. eexists. split; [vm_compute; reflexivity|]. vm_compute. reflexivity. Qed.
+
+(* a `close` directive returned as an opening passes every other check, not wf_keywords_b; so
+   does an `open` whose keyword touches the account *)
+Example C07_spec_rejects_wrong_kind :
+  let t := runes_of_string "2020-01-01 close A
+"%string in
+  let f := mkFile (mkRange 0 19)
+     [mkDirective (mkRange 0 18) (BOpen (mkOpen (mkRange 0 18) (mkRange 0 10) (mkAccount (mkRange 17 18) false)))] in
+  wf_tree_b t f = true /\ cover_b t f = true /\ wf_leaves_b is_letter is_digit t f = true /\
+  wf_keywords_b t f = false.
+Proof. vm_compute. repeat split. Qed.
+Example C07_spec_rejects_glued_keyword :
+  let t := runes_of_string "2020-01-01 openA
+"%string in
+  let f := mkFile (mkRange 0 17)
+     [mkDirective (mkRange 0 16) (BOpen (mkOpen (mkRange 0 16) (mkRange 0 10) (mkAccount (mkRange 15 16) false)))] in
+  wf_tree_b t f = true /\ cover_b t f = true /\ wf_leaves_b is_letter is_digit t f = true /\
+  wf_keywords_b t f = false.
 Proof. vm_compute. repeat split. Qed.
 
 (* the specification rejects trees that are not covers: a directive range shifted by one *)
